@@ -1,4 +1,54 @@
-import KfacVerif.Model.Precond
+/-
+C02 — distributed work placement is semantically transparent.
+Corollaries of the refinement theorem: the reference machine KV.Spec does not mention the work
+assignment, the bucket capacity or the symmetry-aware switch, so nothing the ranks compute depends
+on them.  "Every interleaving" comes from C03 (the lock-step result is the result of every
+schedule: programs are deterministic data-flow over collectives whose matching is schedule
+independent).  Property theorems only.
+-/
+import KfacVerif.Lemmas.SpecFacts
+import Mathlib.Data.Matrix.Basic
+import Mathlib.Data.Matrix.Mul
+
 namespace KV.C02
-theorem placeholder : (1:Nat) = 1 := rfl
+open KV KV.Precond KV.Spec
+
+/-- **ranks agree**: after every history all ranks hold identical gradients -/
+theorem ranks_agree (c : Cfg) (hc : Refine.CfgOK2 c) (h : Hyper) (ops : List Op)
+    (hne : (Precond.run c (St.init c h) ops).err = none) {r r' : Nat} (hr : r < c.world) (hr' : r' < c.world) :
+    (Precond.run c (St.init c h) ops).outGrads.getD r [] = (Precond.run c (St.init c h) ops).outGrads.getD r' [] := by
+  sorry
+
+/-- **placement is irrelevant**: two configurations that agree on what the reference machine sees
+    (world size, number of layers, method, pre-division, accumulation, hook mode) — whatever their
+    gradient-worker count, co-location, cost heuristic, inverse workers, groups, bucket capacity,
+    symmetry-aware setting, element sizes and layer dimensions — leave the same gradients -/
+theorem placement_irrelevant (c₁ c₂ : Cfg) (h₁ : Refine.CfgOK2 c₁) (h₂ : Refine.CfgOK2 c₂)
+    (hs : ofCfg c₁ = ofCfg c₂) (h : Hyper) (ops : List Op)
+    (e₁ : (Precond.run c₁ (St.init c₁ h) ops).err = none) (e₂ : (Precond.run c₂ (St.init c₂ h) ops).err = none)
+    {r r' : Nat} (hr : r < c₁.world) (hr' : r' < c₂.world) :
+    (Precond.run c₁ (St.init c₁ h) ops).outGrads.getD r [] = (Precond.run c₂ (St.init c₂ h) ops).outGrads.getD r' [] := by
+  sorry
+
+/-- in particular bucketing and symmetry-aware communication never change a gradient -/
+theorem bucket_sym_irrelevant (c : Cfg) (bucketed sym : Bool) (cap : Nat)
+    (hc : Refine.CfgOK2 c) (h : Hyper) (ops : List Op)
+    (e₁ : (Precond.run c (St.init c h) ops).err = none)
+    (e₂ : (Precond.run { c with bucketed := bucketed, cap := cap, symAware := sym }
+            (St.init { c with bucketed := bucketed, cap := cap, symAware := sym } h) ops).err = none)
+    {r : Nat} (hr : r < c.world) :
+    (Precond.run c (St.init c h) ops).outGrads.getD r [] =
+      (Precond.run { c with bucketed := bucketed, cap := cap, symAware := sym }
+        (St.init { c with bucketed := bucketed, cap := cap, symAware := sym } h) ops).outGrads.getD r [] := by
+  sorry
+
+/-- **union of the per-rank batches**: the average over ranks of the per-rank batch second moments
+    (equal batch sizes) is the second moment of the union batch — so averaging factors over a world
+    of `W` ranks is single-process K-FAC on the concatenated batch.  `X r` is rank `r`'s `B × n`
+    batch; the union batch has rows indexed by `(r, i)`. -/
+theorem cov_union {W B n : ℕ} (X : Fin W → Matrix (Fin B) (Fin n) ℚ) :
+    let U : Matrix (Fin W × Fin B) (Fin n) ℚ := fun p j => X p.1 p.2 j
+    (∑ r : Fin W, (X r).transpose * X r) = U.transpose * U := by
+  sorry
+
 end KV.C02
